@@ -177,8 +177,12 @@ def run(ctx):
         s = f'salt: "{salt}" ' if salt else ""
         text = f'def gq {{ {s}splitters: {", ".join(sorted(env))} return "g0" weighted 1, "g1" weighted 1, "g2" weighted 2 }}'
         evs[how] = (text, ref_parse(text)[1], im.construct(text))
+    on_boundary = {0, 2**30, 2**31, 3 * 2**30, 2**32 - 1, 2**30 - 1, 2**31 - 1}  # the boundaries of 1:1:2 themselves: always
     for i, k in enumerate(ks):
-        if not ctx.mine(i) or (ctx.quick() and i % 4):
+        if k in on_boundary:
+            if ctx.shard != 0:
+                continue
+        elif not ctx.mine(i) or (ctx.quick() and i % 4):
             continue
         for gid in gold[k][:2]:
             for how, (text, prog, c) in evs.items():
